@@ -22,13 +22,21 @@ RULE = ('deletions: for every length L in 4..14 and both trim sides, every subse
         'distinct coordinates, sampled triples, mixed batches, both sides; substitutions: every position x '
         'character, identical repeated rows, several rows per example; out-of-range example/position/character '
         '(must raise), negative coordinates and conflicting/duplicate rows (outside the scope, tie only), '
-        'non-one-hot inputs for insertions. non-trivial = accepted call whose "after" differs from "before", '
+        'non-one-hot inputs for insertions. About 45% of these cases, plus dedicated streams, vary the input forms: '
+        'X dtype (float64/16, int8/32/64, uint8) and memory layout (contiguous, (B,L,A)-permuted, strided view of a '
+        'larger tensor); variant table as int64/int32 tensor, numpy int64/int32 array (sub, del), column-major or a '
+        'view of a wider table, extra columns (del); left as bool/int/numpy.bool_/0-dim tensor; func = identity, '
+        'recording func with model/args/additional_func_kwargs/kwargs (every routing), or the default predict with '
+        'an identity model that encodes its args, batch sizes 1-32; call sequences on the SAME X/table objects with '
+        'one thing changed (other side, other table, repeated, other func); sizes below the quantifier (L 1-3, A=1). '
+        'non-trivial = accepted call whose "after" differs from "before", '
         'or rejected call with a coordinate within 3 of an axis bound')
 EXHAUSTIVE = {'quick': True, 'thorough': True}   # the (deletion subset, total, side) scope of the quantifier
-TRUSTED = ['identity func: the tensors passed to func are the observation (y_before, y_after are returned as is)']
+TRUSTED = ['identity func: the tensors passed to func are the observation (y_before, y_after are returned as is)',
+           'the recording func / offset-encoding identity model used to observe model, args and kwargs reaching func']
 ASSUMPTIONS = ['torch index assignment of a constant, boolean-mask selection in row-major order, reshape, cumsum, '
                'flip, argsort (distinct keys) behave as modelled (exercised by every case)',
-               'func is called on (X_before, X_after) and nothing else; func itself is opaque to the property']
+               'func itself is opaque to the property; that it receives the caller\'s model/args/kwargs is observed (bit `plumbed` of the case), not modelled']
 
 
 def column(A, k):
@@ -43,8 +51,12 @@ def column(A, k):
     return c
 
 
-def build_X(inp):
-    """(B, A, L) float tensor.  'lab': every cell holds a distinct integer >= 2 (position-labelled)."""
+DTYPES = {'float32': torch.float32, 'float64': torch.float64, 'float16': torch.float16, 'int8': torch.int8,
+          'uint8': torch.uint8, 'int32': torch.int32, 'int64': torch.int64}
+
+
+def base_X(inp):
+    """(B, A, L) float32 tensor of integer values.  'lab': every cell holds a distinct integer >= 2."""
     A, seqs = inp['A'], inp['X']
     B = len(seqs)
     L = len(seqs[0]) if B else 0
@@ -58,9 +70,26 @@ def build_X(inp):
     return X
 
 
+def build_X(inp):
+    """The tensor handed to the implementation: requested dtype and memory layout, same values."""
+    X = base_X(inp).to(DTYPES[inp.get('xdtype', 'float32')])
+    lay = inp.get('xlayout', 'contig')
+    if lay == 'perm':          # stored as (B, L, A), the way one-hot data usually arrives
+        X = X.permute(0, 2, 1).contiguous().permute(0, 2, 1)
+    elif lay == 'view':        # a strided window into a larger tensor full of other values
+        B, A, L = X.shape
+        big = torch.full((2 * B + 1, A, L + 5), 5, dtype=X.dtype)
+        big[1::2, :, 3:3 + L] = X
+        X = big[1::2, :, 3:3 + L]
+    return X
+
+
 def from_tensor(Y):
     Y = Y.detach().cpu()
-    if Y.dim() != 3 or not torch.equal(Y, Y.round()):
+    if Y.dim() != 3:
+        return 'odd'
+    Y = Y.to(torch.float64)
+    if not torch.equal(Y, Y.round()):
         return 'odd'
     return Y.permute(0, 2, 1).to(torch.int64).tolist()
 
@@ -69,33 +98,132 @@ def identity(model, X, args=None, **kwargs):
     return X
 
 
-def rows_tensor(rows, width):
-    if not rows:
-        return torch.zeros(0, width, dtype=torch.int64)
-    return torch.tensor(rows, dtype=torch.int64)
+class Recorder:
+    """identity func that records how it was called"""
+    def __init__(self):
+        self.calls = []
+
+    def __call__(self, model, X, args=None, **kwargs):
+        self.calls.append((model, args, dict(kwargs)))
+        return X
+
+
+class OffsetIdentity(torch.nn.Module):
+    """model for the default func (predict): returns its input, plus 1000*(k+1)*arg_k per example, so that
+    the arguments that reached the model - and their pairing with the examples - are part of the output"""
+    def forward(self, X, *args):
+        Y = X
+        for k, a in enumerate(args):
+            Y = Y + 1000 * (k + 1) * a[:, None, None]
+        return Y
+
+
+def make_table(inp, rows, width):
+    if rows:
+        t = torch.tensor(rows, dtype=torch.int64)
+    else:
+        t = torch.zeros(0, width, dtype=torch.int64)
+    extra = inp.get('extra_col', 0)
+    if extra:                   # more columns than the function reads (the repository's own tests do this)
+        t = torch.cat([t, torch.full((t.shape[0], extra), 7, dtype=torch.int64)], dim=1)
+    form = inp.get('tform', 'long')
+    if form in ('int32', 'np32'):
+        t = t.to(torch.int32)
+    lay = inp.get('tlayout', 'contig')
+    if lay == 'colmajor':
+        t = t.T.contiguous().T
+    elif lay == 'wide':
+        t = torch.cat([t, torch.full((t.shape[0], 2), -5, dtype=t.dtype)], dim=1)[:, :t.shape[1]]
+    if form in ('np64', 'np32'):
+        t = t.numpy()
+    return t
+
+
+def left_arg(inp, left):
+    import numpy
+    form = inp.get('leftform', 'bool')
+    if form == 'int':
+        return 1 if left else 0
+    if form == 'npbool':
+        return numpy.bool_(left)
+    if form == 'tbool':
+        return torch.tensor(bool(left))
+    return bool(left)
+
+
+def one_call(V, inp, X, table, left, form):
+    """one call of the function under test; returns (y_before, y_after, plumbed)"""
+    kind = inp['kind']
+    f = {'sub': V.substitution_effect, 'del': V.deletion_effect, 'ins': V.insertion_effect}[kind]
+    pos = (X, table)
+    kw = {} if kind == 'sub' else {'left': left_arg(inp, left)}
+    B = X.shape[0]
+    if form == 'ident':
+        yb, ya = f(None, *pos, func=identity, **kw)
+        return yb, ya, True
+    nargs = inp.get('nargs', 0)
+    if form == 'rec':
+        rec = Recorder()
+        model = torch.nn.Identity()
+        args = tuple(torch.arange(B) + 10 * k for k in range(nargs)) if nargs else None
+        afk = {'none': None, 'empty': {}, 'dict': {'alpha': 3, 'gamma': [1, 2]}}[inp.get('afk', 'none')]
+        extra = {'beta': 'x'} if inp.get('kw') else {}
+        expect = dict(afk or {}, **extra)
+        if inp.get('afk', 'none') == 'none' and inp.get('kw'):
+            yb, ya = f(model, *pos, args=args, func=rec, **extra, **kw)      # additional_func_kwargs left to its default
+        else:
+            yb, ya = f(model, *pos, args=args, func=rec, additional_func_kwargs=afk, **extra, **kw)
+
+        def same_args(a):
+            if args is None or a is None:
+                return a is args
+            return len(a) == len(args) and all(torch.equal(u, v) for u, v in zip(a, args))
+        plumbed = bool(rec.calls) and all(m is model and same_args(a) and k == expect for m, a, k in rec.calls)
+        return yb, ya, plumbed
+    # default func (tangermeme.predict.predict) with a model that returns its input (+ an encoding of its args)
+    model = OffsetIdentity()
+    args = tuple((torch.arange(B) + 1).to(torch.float32) for _k in range(nargs)) if nargs else None
+    bs = inp.get('bs', 32)
+    if inp.get('kw'):
+        yb, ya = f(model, *pos, args=args, device='cpu', batch_size=bs, **kw)
+    else:
+        yb, ya = f(model, *pos, args=args, additional_func_kwargs={'batch_size': bs, 'device': 'cpu'}, **kw)
+    if nargs:
+        off = sum(1000 * (k + 1) for k in range(nargs)) * (torch.arange(B) + 1).to(torch.float64)
+        yb = yb.to(torch.float64) - off[:, None, None]
+        ya = ya.to(torch.float64) - off[:, None, None]
+    return yb, ya, True
 
 
 def run_impl(inp):
     from tangermeme import variant_effect as V
     X = build_X(inp)
     kind = inp['kind']
+    width = 2 if kind == 'del' else 3
+    tables = {}
+
+    def table_for(rows):
+        key = repr(rows)
+        if key not in tables:
+            tables[key] = make_table(inp, rows, width)
+        return tables[key]
+    # earlier calls in the same process on the SAME tensor objects, with one thing changed
+    for pre in inp.get('pre', []):
+        try:
+            one_call(V, inp, X, table_for(pre.get('rows', inp['rows'])), pre.get('left', inp.get('left', False)),
+                     pre.get('func', 'ident'))
+        except Exception:
+            pass
     try:
-        if kind == 'sub':
-            yb, ya = V.substitution_effect(None, X, rows_tensor(inp['rows'], 3), func=identity)
-        elif kind == 'del':
-            yb, ya = V.deletion_effect(None, X, rows_tensor(inp['rows'], 2), left=inp['left'], func=identity)
-        elif kind == 'ins':
-            yb, ya = V.insertion_effect(None, X, rows_tensor(inp['rows'], 3), left=inp['left'], func=identity)
-        else:
-            raise KeyError(kind)
-        return {'ok': True, 'before': from_tensor(yb), 'after': from_tensor(ya)}
+        yb, ya, plumbed = one_call(V, inp, X, table_for(inp['rows']), inp.get('left', False), inp.get('func', 'ident'))
+        return {'ok': True, 'before': from_tensor(yb), 'after': from_tensor(ya), 'plumbed': plumbed}
     except Exception as e:
-        return {'ok': False, 'err': type(e).__name__}
+        return {'ok': False, 'err': type(e).__name__, 'plumbed': True}
 
 
 def coq_case(inp, out):
     A = inp['A']
-    X = build_X(inp)
+    X = base_X(inp)
     B, _, L = X.shape
     t = '(T %s %s %s)' % (C.nat(A), C.nat(L), C.batch_lit(from_tensor(X)))
     rows = C.lst(['(' + ', '.join(C.z(v) for v in r) + ')' for r in inp['rows']])
@@ -112,7 +240,7 @@ def coq_case(inp, out):
         o = '(Ok ([[[7]]], [[[7]]]))'    # not a (B, A, L) integer tensor: certainly not the expected one
     else:
         o = 'Err'
-    return '(%s, %s)' % (call, o)
+    return '(%s, %s, %s)' % (call, o, C.boolean(out.get('plumbed', True)))
 
 
 def nontrivial(inp, out):
@@ -124,7 +252,8 @@ def nontrivial(inp, out):
 
 
 def hist_key(inp, out):
-    return '%s/B%d/%s' % (inp['kind'], len(inp['X']), 'ok' if out['ok'] else 'raise')
+    forms = '+'.join(sorted(k for k in OPTIONAL if k in inp and k not in ('nargs', 'kw', 'afk', 'bs'))) or 'plain'
+    return '%s/%s/%s' % (inp['kind'], forms, 'ok' if out['ok'] else 'raise')
 
 
 def tags(inp, out):
@@ -282,28 +411,172 @@ def malformed_cases(rng, Ls, n):
                        'lab': kind != 'ins' and rng.random() < 0.3}
 
 
+# every accepted input form / option, as (field, non-default values, kinds it applies to)
+FORM_ITEMS = [
+    ('xdtype', ['float64', 'float16', 'int8', 'uint8', 'int32', 'int64'], ('sub', 'del', 'ins')),
+    ('xlayout', ['perm', 'view'], ('sub', 'del', 'ins')),
+    ('tform', ['int32'], ('sub', 'del', 'ins')),
+    ('tform', ['np64', 'np32'], ('sub', 'del')),        # insertion_effect needs a torch table (argsort)
+    ('tlayout', ['colmajor', 'wide'], ('sub', 'del', 'ins')),
+    ('extra_col', [1, 2], ('del',)),                    # tests/test_variant_effect.py passes a 3-column table
+    ('leftform', ['int', 'npbool', 'tbool'], ('del', 'ins')),
+    ('func', ['rec', 'predict'], ('sub', 'del', 'ins')),
+]
+
+
+def lab_fits(inp, dtype):
+    if not inp.get('lab'):
+        return True
+    B = len(inp['X'])
+    L = len(inp['X'][0]) if B else 0
+    top = 2 + B * L * inp['A']
+    return top <= {'int8': 127, 'uint8': 255, 'float16': 2048}.get(dtype, 10 ** 9)
+
+
+def set_form(rng, inp, field, value):
+    c = dict(inp)
+    if field == 'xdtype' and not lab_fits(inp, value):
+        c['lab'] = False
+    c[field] = value
+    if field == 'func':
+        c['nargs'] = rng.choice([0, 1, 2])
+        c['kw'] = rng.random() < 0.5
+        if value == 'rec':
+            c['afk'] = rng.choice(['none', 'empty', 'dict'])
+        else:
+            c['bs'] = rng.choice([1, 2, 3, 32])
+            if c['nargs'] and c.get('xdtype', 'float32') in ('int8', 'uint8', 'float16'):
+                c['xdtype'] = 'float32'       # the offset encoding of args needs room
+    return c
+
+
+def decorate(rng, inp, p=0.45):
+    """spread the input forms over the exhaustive streams: with probability p a case gets 1-3 non-default forms"""
+    if rng.random() >= p:
+        return inp
+    items = [it for it in FORM_ITEMS if inp['kind'] in it[2]]
+    for field, values, _ in rng.sample(items, rng.choice([1, 1, 2, 3])):
+        inp = set_form(rng, inp, field, rng.choice(values))
+    if inp.get('func') == 'predict' and inp.get('nargs') and inp.get('xdtype') in ('int8', 'uint8', 'float16'):
+        inp = dict(inp, xdtype='float32')
+    return inp
+
+
+def edge_rows(rng, kind, B, L, A):
+    """a small variant table biased to the two ends of the sequence"""
+    rows = []
+    for b in range(B):
+        hi = L + 1 if kind == 'ins' else L
+        cand = list({0, hi - 1, rng.randrange(hi), rng.randrange(hi)})
+        k = rng.choice([0, 1, 2, min(3, len(cand))])
+        if kind == 'del':
+            k = min(k, 3, L - 1)
+        for pp in rng.sample(cand, min(k, len(cand))):
+            rows.append([b, pp] + ([rng.randrange(A)] if kind != 'del' else []))
+    rng.shuffle(rows)
+    return rows
+
+
+def form_cases(rng, reps):
+    """every single form item on its own (so that each one is exercised whatever the seed), every kind, both
+    sides, variants at the two ends"""
+    for kind in ('sub', 'del', 'ins'):
+        for field, values, kinds in FORM_ITEMS:
+            if kind not in kinds:
+                continue
+            for value in values:
+                for left in (False, True):
+                    for _ in range(reps):
+                        A = rng.choice([2, 4, 4, 5])
+                        B = rng.randint(1, 4)
+                        L = rng.choice([4, 5, 8, 14])
+                        inp = {'kind': kind, 'A': A, 'X': rand_seqs(rng, B, A, L), 'left': left,
+                               'rows': edge_rows(rng, kind, B, L, A),
+                               'lab': kind != 'ins' and rng.random() < 0.5}
+                        yield set_form(rng, inp, field, value)
+    # every func form x every way the keyword arguments can be routed x number of args
+    for kind in ('sub', 'del', 'ins'):
+        for func in ('rec', 'predict'):
+            for nargs in (0, 1, 2):
+                for kw in (False, True):
+                    for afk in (('none', 'empty', 'dict') if func == 'rec' else ('none',)):
+                        B = rng.randint(1, 4)
+                        L = rng.choice([4, 6, 9])
+                        left = rng.random() < 0.5
+                        yield {'kind': kind, 'A': 4, 'X': rand_seqs(rng, B, 4, L), 'left': left,
+                               'rows': edge_rows(rng, kind, B, L, 4), 'func': func, 'nargs': nargs, 'kw': kw,
+                               'afk': afk, 'bs': rng.choice([1, 2, 32]), 'lab': kind != 'ins' and nargs == 0}
+
+
+def reuse_cases(rng, reps):
+    """call sequences in one process on the SAME X / table objects with one thing changed before the observed call:
+    the other side, another table, the same call repeated, another func form"""
+    for kind in ('sub', 'del', 'ins'):
+        for what in ('same', 'side', 'table', 'func', 'two'):
+            for _ in range(reps):
+                A = 4
+                B = rng.randint(1, 4)
+                L = rng.choice([4, 5, 7, 10])
+                left = rng.random() < 0.5
+                rows = edge_rows(rng, kind, B, L, A)
+                other = edge_rows(rng, kind, B, L, A)
+                pre = {'same': [{}], 'side': [{'left': not left}], 'table': [{'rows': other}],
+                       'func': [{'func': rng.choice(['rec', 'predict'])}],
+                       'two': [{'rows': other, 'left': not left}, {'left': not left}]}[what]
+                inp = {'kind': kind, 'A': A, 'X': rand_seqs(rng, B, A, L), 'left': left, 'rows': rows, 'pre': pre,
+                       'lab': kind != 'ins' and rng.random() < 0.5}
+                if rng.random() < 0.5:
+                    field, values, _ = rng.choice([it for it in FORM_ITEMS if kind in it[2] and it[0] != 'func'])
+                    inp = set_form(rng, inp, field, rng.choice(values))
+                yield inp
+
+
+def small_cases(rng, reps):
+    """sizes below the quantifier's (the theorems hold for all sizes): L 1-3, alphabet of one letter for the two
+    functions that do not validate, batch of one"""
+    for L in (1, 2, 3):
+        for kind in ('sub', 'del', 'ins'):
+            for _ in range(reps):
+                A = rng.choice([1, 2, 4]) if kind != 'ins' else rng.choice([2, 4])
+                B = rng.randint(1, 3)
+                yield {'kind': kind, 'A': A, 'X': rand_seqs(rng, B, A, L), 'left': rng.random() < 0.5,
+                       'rows': edge_rows(rng, kind, B, L, A), 'lab': kind != 'ins'}
+
+
 def generate(tier, rng):
     allL = list(range(4, 15))
     if tier == 'thorough':
-        for _round in range(3):     # every (subset, total) pair three times, in differently mixed batches
-            yield from deletion_cases(rng, allL, 200)
-        yield from insertion_cases(rng, allL, 80, 200)
-        yield from substitution_cases(rng, allL, 120)
-        yield from malformed_cases(rng, allL, 60)
+        streams = [deletion_cases(rng, allL, 200) for _round in range(3)]   # every (subset, total) pair three
+        streams += [insertion_cases(rng, allL, 80, 200),                    # times, in differently mixed batches
+                    substitution_cases(rng, allL, 120), malformed_cases(rng, allL, 60)]
+        extra = [form_cases(rng, 6), reuse_cases(rng, 20), small_cases(rng, 12)]
     else:
         Ls = [4, 5, 7, 10, 14]
-        yield from deletion_cases(rng, allL, 20)
-        yield from insertion_cases(rng, Ls, 15, 30)
-        yield from substitution_cases(rng, Ls, 20)
-        yield from malformed_cases(rng, Ls, 12)
+        streams = [deletion_cases(rng, allL, 20), insertion_cases(rng, Ls, 15, 30),
+                   substitution_cases(rng, Ls, 20), malformed_cases(rng, Ls, 12)]
+        extra = [form_cases(rng, 2), reuse_cases(rng, 6), small_cases(rng, 4)]
+    for st in streams:
+        for inp in st:
+            yield decorate(rng, inp)
+    for st in extra:
+        yield from st
 
 
 # ----------------------------------------------------------------------------------------
 # shrinking / directed search
 
+OPTIONAL = ('pre', 'xdtype', 'xlayout', 'tform', 'tlayout', 'extra_col', 'leftform', 'func', 'nargs', 'kw', 'afk', 'bs')
+
+
 def shrink(inp):
     rows = inp['rows']
     B = len(inp['X'])
+    # back to the default form of one optional item
+    for k in OPTIONAL:
+        if k in inp:
+            c = dict(inp)
+            del c[k]
+            yield c
     # drop one example (and its rows; later examples are renumbered)
     if B > 1:
         for i in range(B):
